@@ -43,6 +43,7 @@ type Replay struct {
 	Case    int       `json:"case"`
 	Chain   ChainSpec `json:"chain"`
 	History []Item    `json:"history"`
+	DA      *DAScenario `json:"da,omitempty"` // a DA-ingress scenario instead of an event history
 }
 
 func TxBytes(id int) []byte { return []byte(fmt.Sprintf("tx-%05d", id)) }
@@ -70,6 +71,9 @@ type Obs struct {
 	St      [3]int64 // disk state: height, time, root idx
 	Last    [3]int64 // Manager.GetLastState
 	Calls   int
+	DASt    int64 // State.DAHeight in the store (-1: no state)
+	DALast  uint64
+	DAMgr   uint64 // Manager.daHeight (DA scan position)
 }
 
 type Violation struct{ Sig, What string }
@@ -178,10 +182,13 @@ func (rn *runner) observe() {
 	}
 	if s, ok := n.State(); ok {
 		o.HasSt = true
+		o.DASt = int64(s.DAHeight)
 		o.St = [3]int64{int64(s.LastBlockHeight), s.LastBlockTime.UnixNano(), int64(r.rootID(s.AppHash))}
 	}
 	if n.M != nil {
 		s := n.M.GetLastState()
+		o.DALast = s.DAHeight
+		o.DAMgr = n.M.VerifDAHeight()
 		o.Last = [3]int64{int64(s.LastBlockHeight), s.LastBlockTime.UnixNano(), int64(r.rootID(s.AppHash))}
 	} else {
 		o.Last = [3]int64{int64(r.Chain.Initial) - 1, GenesisTime.UnixNano(), 0}
@@ -578,11 +585,12 @@ func (r *CaseResult) CoqModule(idx int) string {
 		hist = append(hist, itemCoq(it))
 	}
 	for _, o := range r.Obs {
-		st := "None"
+		st, dast := "None", "None"
 		if o.HasSt {
 			st = "Some " + t3(o.St)
+			dast = "Some " + vgen.N(uint64(o.DASt))
 		}
-		obs = append(obs, fmt.Sprintf("{| o_height := %s; o_status := %d; o_state := %s; o_last := %s; o_calls := %d |}", vgen.N(o.Height), o.Status, st, t3(o.Last), o.Calls))
+		obs = append(obs, fmt.Sprintf("{| o_height := %s; o_status := %d; o_state := %s; o_last := %s; o_calls := %d; o_da := (%s, %s, %s) |}", vgen.N(o.Height), o.Status, st, t3(o.Last), o.Calls, dast, vgen.N(o.DALast), vgen.N(o.DAMgr)))
 	}
 	for _, s := range r.Shapes {
 		ws = append(ws, vgen.List(s))
